@@ -90,7 +90,12 @@ def make_context():
     """Mutable objects that formulas reference by name and hand to transforms as arguments."""
     return {"k": 2.5, "offset": np.array([1.0, 2.0, 3.0]), "double": _double, "lv": ["u", "v", "w"],
             "kn": [3.0, 5.0], "kn2": [2.5, 4.0, 6.0], "cm": {"uv": [1.0, -1.0, 0.0], "vw": [0.0, 1.0, -1.0]},
-            "ctr": [0.5], "pw": np.array([1.0, 2.0])}
+            "ctr": [0.5], "pw": np.array([1.0, 2.0]),
+            # writable numpy vectors the caller still holds (8 entries = rows of d0 / d1 / d3), handed to transforms by name
+            "vf64": np.array([0.5, 2.25, -1.0, 4.5, 3.0, 7.75, 6.0, 5.25]),
+            "vf32": np.array([1.5, 0.25, 3.0, 2.5, 6.0, 4.75, 8.0, 7.5], dtype=np.float32),
+            "vi64": np.array([3, 1, 2, 3, 1, 2, 3, 1], dtype=np.int64),
+            "vf64n": np.array([1.0, np.nan, 2.5, 4.0, np.nan, 0.5, 3.0, 6.5])}
 
 
 def _leaves(o, path=()):
@@ -143,10 +148,12 @@ def _frames_equal(a, b):
             return f"dict data: keys/type changed ({type(a).__name__} {list(a)})"
         for key in a:
             x, y = a[key], b[key]
-            if type(x) is not type(y) or len(x) != len(y) or any(p != q for p, q in zip(list(x), list(y))):
+            if isinstance(x, np.ndarray):
+                if not (isinstance(y, np.ndarray) and x.dtype == y.dtype and x.shape == y.shape and x.flags.writeable
+                        and np.ascontiguousarray(x).tobytes() == np.ascontiguousarray(y).tobytes()):
+                    return f"dict data: array column {key!r} changed"
+            elif type(x) is not type(y) or len(x) != len(y) or any(p != q for p, q in zip(list(x), list(y))):
                 return f"dict data: column {key!r} changed"
-            if isinstance(x, np.ndarray) and x.dtype != y.dtype:
-                return f"dict data: dtype of column {key!r} changed"
         return None
     try:
         pd.testing.assert_frame_equal(a, b, check_exact=True, check_dtype=True, check_index_type=True,
@@ -162,8 +169,12 @@ def _ctx_equal(a, b):
     for key in a:
         x, y = a[key], b[key]
         if isinstance(x, np.ndarray):
-            if not (isinstance(y, np.ndarray) and x.dtype == y.dtype and np.array_equal(x, y)):
-                return f"value of {key!r} changed"
+            # contents compared bit for bit (NaN positions included), plus dtype, shape and the writeable flag
+            if not (isinstance(y, np.ndarray) and x.dtype == y.dtype and x.shape == y.shape
+                    and np.ascontiguousarray(x).tobytes() == np.ascontiguousarray(y).tobytes()):
+                return f"array {key!r} changed: {y.tolist()} -> {x.tolist()}"[:300]
+            if not x.flags.writeable:
+                return f"array {key!r} is no longer writeable"
         elif callable(x):
             if x is not y:
                 return f"value of {key!r} replaced"
